@@ -194,6 +194,19 @@ struct Case {
     o << " mb" << torrent::runtime::memory_manager()->memory_block_count()
       << " mu" << torrent::runtime::memory_manager()->memory_usage();
     o << " t" << ht()->delay_retry().is_scheduled();
+    // queued piece indices in queue order; per chunk-list node references:blocking:mapped ('.' = free)
+    o << " q";
+    {
+      auto qs = queued();
+      if (qs.empty()) o << "-";
+      for (size_t i = 0; i < qs.size(); i++) o << (i ? "," : "") << qs[i]->handle().index();
+    }
+    o << " nd";
+    if (cl->begin() == cl->end()) o << "-";
+    for (auto it = cl->begin(); it != cl->end(); ++it) {
+      if (it->references() == 0 && it->blocking() == 0 && !it->is_valid()) o << ".";
+      else o << "[" << it->references() << ":" << it->blocking() << ":" << (it->is_valid() ? 1 : 0) << "]";
+    }
     return o.str();
   }
 
